@@ -7,6 +7,7 @@ package transport
 // start states.
 
 import (
+	"os"
 	"bytes"
 	"fmt"
 	"strings"
@@ -28,6 +29,8 @@ type c05Reply struct {
 	count  int    // times delivered
 	wire   []byte
 }
+
+var c05AsC01 = os.Getenv("VERIF_PROP") == "C01"
 
 func c05Scenario(c *choice.Ctx, rep *report.R, tcp bool, startQid int, nCalls, depth int, oversize int) {
 	own := env.InstallOwn(0xA5, vRace)
@@ -55,11 +58,21 @@ func c05Scenario(c *choice.Ctx, rep *report.R, tcp bool, startQid int, nCalls, d
 	var serial byte
 	seenFrames := map[int]int{} // conn -> frames already turned into reply candidates
 	unsolicited, finned := false, map[int]bool{}
+	garbaged := false
 	stalled, early := map[int]bool{}, map[int]bool{}
 	var trace []string
 	forwarded := false
 
 	fail := func(sig, msg string) {
+		if c05AsC01 {
+			// run as a part of C01: whatever the server sends and whenever, the transport neither panics nor returns (nil, nil) or an undecodable message
+			if sig != "panic" && sig != "nil-nil" && sig != "bad-message" {
+				return
+			}
+			rep.Violate("C01:pipeline:"+sig, fmt.Sprintf("%s\n  tcp=%v startQid=%d events: %s%s", msg, tcp, startQid, strings.Join(trace, " "), pauseNote()),
+				map[string]any{"Choices": c.Choices(), "Scenario": fmt.Sprintf("tcp=%v,qid=%d,over=%d", tcp, startQid, oversize)})
+			return
+		}
 		rep.Violate("C05:"+sig, fmt.Sprintf("%s\n  tcp=%v startQid=%d events: %s%s", msg, tcp, startQid, strings.Join(trace, " "), pauseNote()),
 			map[string]any{"Choices": c.Choices(), "Scenario": fmt.Sprintf("tcp=%v,qid=%d,over=%d", tcp, startQid, oversize)})
 	}
@@ -216,6 +229,18 @@ func c05Scenario(c *choice.Ctx, rep *report.R, tcp bool, startQid int, nCalls, d
 			impl := d.ImplEnd(ci)
 			if !finned[ci] && !impl.IsClosed() {
 				menu = append(menu, event{name: fmt.Sprintf("fin(c%d)", ci), fault: true, do: func() { finned[ci] = true; impl.PeerFIN() }})
+				if !garbaged {
+					// an undecodable frame / datagram (a stream connection cannot be resynchronised and must be given up; a datagram is dropped)
+					menu = append(menu, event{name: fmt.Sprintf("garbage(c%d)", ci), fault: true, do: func() {
+						garbaged = true
+						b := []byte{0xde, 0xad, 0xbe}
+						if tcp {
+							b = refdns.Frame(b)
+							finned[ci] = true // nothing sent after it can be trusted to be read
+						}
+						impl.Inject(b)
+					}})
+				}
 				qs := env.QueriesOn(ci, impl, tcp)
 				if !stalled[ci] && len(qs) > 0 {
 					menu = append(menu, event{name: fmt.Sprintf("stall-writes(c%d)", ci), fault: true, do: func() { stalled[ci] = true; impl.Stall() }})
